@@ -85,7 +85,8 @@ func okCount(h *History, kinds ...string) int {
 }
 
 var ProfileC01 = &Profile{
-	ID: "C01", Name: "amm-mixed", Weights: mixedWeights(), MinBlocks: 5, MaxBlocks: 40, MaxTxs: 5,
+	MultiMsg: true,
+	ID:       "C01", Name: "amm-mixed", Weights: mixedWeights(), MinBlocks: 5, MaxBlocks: 40, MaxTxs: 5,
 	Spec: withSkew(specDefault), Check: CheckC01,
 	Rule: "history with >=2 writer kinds on pools (amm swap/join/exit plus perpetual or leveragelp) and >=10 successful pool-mutating txs",
 	NonTrivial: func(h *History) bool {
@@ -111,7 +112,8 @@ func withWeights(base map[string]int, over map[string]int) map[string]int {
 }
 
 var ProfileC02 = &Profile{
-	ID: "C02", Name: "shares", MinBlocks: 5, MaxBlocks: 40, MaxTxs: 5, Spec: specDefault, Check: CheckC02,
+	MultiMsg: true,
+	ID:       "C02", Name: "shares", MinBlocks: 5, MaxBlocks: 40, MaxTxs: 5, Spec: specDefault, Check: CheckC02,
 	Weights: withWeights(mixedWeights(), map[string]int{"amm.join": 14, "amm.exit": 14, "leveragelp.open": 10, "leveragelp.close": 8, "leveragelp.close_positions": 3, "perpetual.open": 2, "perpetual.close": 2}),
 	Rule:    "history with >=1 join and >=1 exit and >=1 leveragelp open or close (all successful)",
 	NonTrivial: func(h *History) bool {
@@ -157,7 +159,8 @@ func vaultGov(h *History, g *G) []EnvAction {
 }
 
 var ProfileC06 = &Profile{
-	ID: "C06", Name: "lending", MinBlocks: 5, MaxBlocks: 40, MaxTxs: 5, Spec: specLending, Check: CheckC06, PreBlock: vaultGov,
+	MultiMsg: true,
+	ID:       "C06", Name: "lending", MinBlocks: 5, MaxBlocks: 40, MaxTxs: 5, Spec: specLending, Check: CheckC06, PreBlock: vaultGov,
 	Weights: map[string]int{"stablestake.bond": 12, "stablestake.unbond": 8, "leveragelp.open": 14, "leveragelp.close": 10, "leveragelp.close_positions": 4,
 		"leveragelp.update_stop_loss": 2, "leveragelp.claim_rewards": 1, "oracle.feed_price": 8, "amm.swap_in": 4, "amm.join": 2, "amm.exit": 2, "masterchef.claim": 1},
 	Gaps: []time.Duration{time.Second, 5 * time.Second, 6 * time.Second, time.Hour + time.Second, 3 * time.Hour, 24*time.Hour + time.Second, 8 * 24 * time.Hour},
@@ -168,7 +171,8 @@ var ProfileC06 = &Profile{
 }
 
 var ProfileC08 = &Profile{
-	ID: "C08", Name: "leveragelp", MinBlocks: 5, MaxBlocks: 40, MaxTxs: 5, Spec: specLending, Check: CheckC08,
+	MultiMsg: true,
+	ID:       "C08", Name: "leveragelp", MinBlocks: 5, MaxBlocks: 40, MaxTxs: 5, Spec: specLending, Check: CheckC08,
 	Weights: map[string]int{"stablestake.bond": 8, "stablestake.unbond": 4, "leveragelp.open": 16, "leveragelp.close": 12, "leveragelp.close_positions": 6,
 		"leveragelp.update_stop_loss": 4, "leveragelp.claim_rewards": 2, "oracle.feed_price": 10, "amm.swap_in": 4, "amm.swap_out": 2, "amm.join": 2, "amm.exit": 2},
 	Rule: "history with >=1 forced close (position gone without an owner close tx) and >=1 partial close and >=1 consolidating open",
@@ -178,7 +182,8 @@ var ProfileC08 = &Profile{
 }
 
 var ProfileC09 = &Profile{
-	ID: "C09", Name: "perpetual", MinBlocks: 5, MaxBlocks: 40, MaxTxs: 5, Spec: specDefault, Check: combine(CheckC09),
+	MultiMsg: true,
+	ID:       "C09", Name: "perpetual", MinBlocks: 5, MaxBlocks: 40, MaxTxs: 5, Spec: specDefault, Check: combine(CheckC09),
 	Weights: map[string]int{"perpetual.open": 18, "perpetual.close": 10, "perpetual.close_positions": 6, "perpetual.update_stop_loss": 3, "perpetual.update_take_profit": 3,
 		"oracle.feed_price": 10, "amm.swap_in": 5, "amm.swap_out": 3, "amm.join": 3, "amm.exit": 3, "stablestake.bond": 1},
 	Rule: "history in which long and short MTPs coexisted across >=1 block with a time gap >=1h (interest/funding settlement) and >=1 partial close succeeded",
@@ -188,7 +193,8 @@ var ProfileC09 = &Profile{
 }
 
 var ProfileC11 = &Profile{
-	ID: "C11", Name: "accounted", MinBlocks: 5, MaxBlocks: 40, MaxTxs: 5, Spec: specDefault, Check: CheckC11,
+	MultiMsg: true,
+	ID:       "C11", Name: "accounted", MinBlocks: 5, MaxBlocks: 40, MaxTxs: 5, Spec: specDefault, Check: CheckC11,
 	Weights: withWeights(ProfileC09.Weights, map[string]int{"amm.swap_in": 10, "amm.swap_out": 6, "amm.join": 5, "amm.exit": 5}),
 	Rule:    "history with amm writers and perpetual writers on the same pool, including >=1 block whose last pool writer was a perpetual handler",
 	NonTrivial: func(h *History) bool {
@@ -252,7 +258,8 @@ func c12ExtraOps(h *History, g *G) []*Op {
 }
 
 var ProfileC12 = &Profile{
-	ID: "C12", Name: "commitments", MinBlocks: 5, MaxBlocks: 40, MaxTxs: 5, Spec: specLending, Check: CheckC12, ExtraOps: c12ExtraOps,
+	MultiMsg: true,
+	ID:       "C12", Name: "commitments", MinBlocks: 5, MaxBlocks: 40, MaxTxs: 5, Spec: specLending, Check: CheckC12, ExtraOps: c12ExtraOps,
 	Weights: map[string]int{"amm.join": 12, "amm.exit": 12, "stablestake.bond": 6, "stablestake.unbond": 5, "leveragelp.open": 6, "leveragelp.close": 5, "leveragelp.close_positions": 2,
 		"masterchef.claim": 10, "commitment.commit_claimed": 8, "commitment.uncommit": 8, "commitment.stake": 5, "commitment.unstake": 4, "estaking.withdraw_rewards": 2, "commitment.vest_liquid": 3, "commitment.vest": 5, "commitment.cancel_vest": 3, "commitment.claim_vesting": 3, "commitment.vest_now": 1,
 		"oracle.feed_price": 4, "amm.swap_in": 6},
@@ -280,7 +287,8 @@ func c13Gov(h *History, g *G) []EnvAction {
 }
 
 var ProfileC13 = &Profile{
-	ID: "C13", Name: "rewards", MinBlocks: 8, MaxBlocks: 40, MaxTxs: 5, Spec: specDefault, Check: CheckC13, FinalOps: c13Drain, Final: c13Final, PreBlock: c13Gov,
+	MultiMsg: true,
+	ID:       "C13", Name: "rewards", MinBlocks: 8, MaxBlocks: 40, MaxTxs: 5, Spec: specDefault, Check: CheckC13, FinalOps: c13Drain, Final: c13Final, PreBlock: c13Gov,
 	Weights: map[string]int{"amm.swap_in": 14, "amm.swap_out": 8, "amm.swap_in_2hop": 3, "amm.join": 8, "amm.exit": 6, "stablestake.bond": 5, "stablestake.unbond": 3,
 		"perpetual.open": 6, "perpetual.close": 4, "leveragelp.open": 4, "leveragelp.close": 3, "leveragelp.claim_rewards": 2,
 		"masterchef.claim": 8, "masterchef.add_external_incentive": 5, "oracle.feed_price": 3},
@@ -302,7 +310,8 @@ func allWeights() map[string]int {
 }
 
 var ProfileC15 = &Profile{
-	ID: "C15", Name: "everything", MinBlocks: 8, MaxBlocks: 50, MaxTxs: 6, Spec: withBurner(specDefault), Check: CheckC15, Weights: withWeights(allWeights(), map[string]int{"bank.send_to_burn": 5}),
+	MultiMsg: true,
+	ID:       "C15", Name: "everything", MinBlocks: 8, MaxBlocks: 50, MaxTxs: 6, Spec: withBurner(specDefault), Check: CheckC15, Weights: withWeights(allWeights(), map[string]int{"bank.send_to_burn": 5}),
 	Rule: "history with >=30 successful txs from >=5 modules and >=1 block gap >= 1 day (epoch boundary)",
 	NonTrivial: func(h *History) bool {
 		mods := map[string]bool{}
@@ -404,7 +413,8 @@ func specFaulty(t *rapid.T) WorldSpec {
 }
 
 var ProfileC18 = &Profile{
-	ID: "C18", Name: "faults", MinBlocks: 8, MaxBlocks: 50, MaxTxs: 6, Spec: withBurner(specFaulty), Weights: withWeights(allWeights(), map[string]int{"oracle.refresh": 12, "oracle.feed_price": 8}),
+	MultiMsg: true,
+	ID:       "C18", Name: "faults", MinBlocks: 8, MaxBlocks: 50, MaxTxs: 6, Spec: withBurner(specFaulty), Weights: withWeights(allWeights(), map[string]int{"oracle.refresh": 12, "oracle.feed_price": 8}),
 	BlockFailureIsViolation: true, VaryFees: true,
 	Check: CheckC18,
 	Gaps:  []time.Duration{time.Second, 5 * time.Second, 6 * time.Second, 5 * time.Second, time.Hour + time.Second, 24*time.Hour + time.Second, 8 * 24 * time.Hour, 40 * 24 * time.Hour},
